@@ -73,6 +73,7 @@ func c19NewApp(t *testing.T, db dbm.DB, home string) *elysapp.ElysApp {
 	appOptions := make(simtestutil.AppOptionsMap, 0)
 	appOptions[flags.FlagHome] = ""
 	appOptions[server.FlagInvCheckPeriod] = 1
+	worldWarmUp.Do(func() { _ = elysapp.InitElysTestApp(true, t) }) // see world_test.go: first construction alone
 	return elysapp.NewElysApp(log.NewNopLogger(), db, nil, true, map[int64]bool{}, home, appOptions)
 }
 
